@@ -60,6 +60,19 @@ func (s *Session) EnsureValid() error {
 		return fmt.Errorf("invalid beta-specific configuration: %w", err)
 	}
 
+	// Ensure that the configurations that the endpoints will actually receive
+	// (the session configuration merged with each endpoint-specific
+	// configuration) are valid. Endpoint-specific configurations are validated
+	// on their own above, but some constraints (e.g. the default file mode not
+	// containing executability bits in portable permissions mode) can only be
+	// evaluated once the endpoint-specific values have been combined with the
+	// session-wide ones.
+	if err := MergeConfigurations(s.Configuration, s.ConfigurationAlpha).EnsureValid(false); err != nil {
+		return fmt.Errorf("invalid merged alpha configuration: %w", err)
+	} else if err = MergeConfigurations(s.Configuration, s.ConfigurationBeta).EnsureValid(false); err != nil {
+		return fmt.Errorf("invalid merged beta configuration: %w", err)
+	}
+
 	// Validate the session name.
 	if err := selection.EnsureNameValid(s.Name); err != nil {
 		return fmt.Errorf("invalid session name: %w", err)
